@@ -325,7 +325,7 @@ def run_case(case, ctx):
         cx, cy = np.array([[val(fx)], [val(fx)]]), np.array([[val(fy), val(fy), val(fy)]])
     method = ('raw', 'repr')[i % 2]
 
-    hist = (i % 3 == 1)
+    hist = ((i // 6) % 3 == 1)      # (independent of the method digit i % 2 and the operation digit (i // 2) % 3)
 
     def mkx():
         x_ = Fxp(cx, fx[0], fx[1], fx[2], raw=True, rounding=rx, overflow=ox, op_method=method)
@@ -337,7 +337,7 @@ def run_case(case, ctx):
 
     def mkt():
         t = Fxp(None, ft[0], ft[1], ft[2], rounding=rt, overflow=ot)
-        if i % 5 == 0:
+        if (i // 18) % 5 == 0:
             # a target / template that already carries raised flags: out keeps them (sticky), an out_like result starts clean
             _try(lambda: t(float(t.upper) * 4 + 1.3))
             _try(lambda: t(float(t.lower) * 4 - 1.3))
